@@ -458,8 +458,6 @@ theorem rfGrouping (cfg : Cfg) (s : St) (h : Coherent cfg s) (sec : Sec) (hsec :
     -- facts about the partition
     have hfacts : l.Nodup ∧ (∀ x, x ∈ l ↔ x ∈ s.pol.get sec ∧ x ∉ eff) ∧ (∀ x ∈ eff, x ∈ s.pol.get sec) := by
       unfold Policy.removeFilteredReturnsEffects at hrf
-      split at hrf
-      · cases hrf; exact ⟨h.nodup sec, by simp, by simp⟩
       · cases hp : partitionFiltered idx vals (s.pol.get sec) with
         | error e => simp [hp, Except.map] at hrf
         | ok pr =>
